@@ -129,6 +129,18 @@ func (c *FactoryStore) Start(ctx context.Context, informerId string, client dyna
 	return nil
 }
 
+// Objects returns objects from the store of the informer in the factory with the index.
+func (c *FactoryStore) Objects(index FactoryIndex) []interface{} {
+	c.mu.Lock()
+	defer c.mu.Unlock()
+
+	f, ok := c.data[index]
+	if !ok {
+		return nil
+	}
+	return f.shared.ForResource(index.GVR).Informer().GetStore().List()
+}
+
 func (c *FactoryStore) Stop(informerId string, index FactoryIndex) {
 	c.mu.Lock()
 	defer c.mu.Unlock()
